@@ -34,10 +34,18 @@ fn core_specs(quick: bool) -> Vec<CoreSpec> {
     }
     v.push(CoreSpec { name: "writer n=5 cleared 2".into(), whist: c03::shape(5, 0, Some(2)), replica_state: None, reopened: false });
     v.push(CoreSpec { name: "writer n=6 batch cleared 0 reopened".into(), whist: c03::shape(6, 1, Some(0)), replica_state: None, reopened: true });
-    let step = if quick { 60 } else { 10 };
-    let nstates = if quick { 369 } else { 369 };
-    for k in (0..nstates).step_by(step) {
+    // sparse replicas: every saturated state of a 3-block writer, and every k-th of a 5-block one
+    for k in 0..74 {
+        v.push(CoreSpec { name: format!("replica state #{k} of writer n=3"), whist: c03::shape(3, 0, None), replica_state: Some(k), reopened: true });
+    }
+    let step = if quick { 30 } else { 6 };
+    for k in (0..369).step_by(step) {
         v.push(CoreSpec { name: format!("replica state #{k} of writer n=5"), whist: c03::shape(5, 0, None), replica_state: Some(k), reopened: true });
+    }
+    if !quick {
+        for k in (0..4696).step_by(150) {
+            v.push(CoreSpec { name: format!("replica state #{k} of writer n=8"), whist: c03::shape(8, 0, None), replica_state: Some(k), reopened: true });
+        }
     }
     v
 }
@@ -50,7 +58,7 @@ pub struct Subject {
     pub image: Image,
 }
 
-fn build_subject(spec: &CoreSpec, sat_cache: &std::sync::Mutex<Option<Vec<(Image, ReplicaModel)>>>) -> Option<Subject> {
+fn build_subject(spec: &CoreSpec, sat_cache: &std::sync::Mutex<std::collections::BTreeMap<String, Vec<(Image, ReplicaModel)>>>) -> Option<Subject> {
     match spec.replica_state {
         None => {
             let w = c03::build_writer(&spec.whist);
@@ -65,15 +73,16 @@ fn build_subject(spec: &CoreSpec, sat_cache: &std::sync::Mutex<Option<Vec<(Image
             Some(Subject { core, n: info.length, m: info.byte_length, is_replica: false, image })
         }
         Some(k) => {
+            let key = format!("{:?}", spec.whist);
             let mut g = sat_cache.lock().unwrap();
-            if g.is_none() {
+            if !g.contains_key(&key) {
                 let tmp = Report::new("C09", "quick", "exploration");
                 let st = Stats::default();
                 let gs = FpSet::default();
                 let r = c03::saturate("C09", &spec.whist, vec![c03::empty_replica()], c03::Seeks::None, true, false, &tmp, &st, &gs);
-                *g = Some(r.kept);
+                g.insert(key.clone(), r.kept);
             }
-            let states = g.as_ref().unwrap();
+            let states = g.get(&key).unwrap();
             let (img, _) = states.get(k % states.len().max(1))?.clone();
             drop(g);
             let (mut core, out) = Core::from_image(img.clone(), CacheCfg::Off);
@@ -423,7 +432,7 @@ pub fn run(tier: &str) -> i32 {
     let rep = Report::new("C09", tier, "exploration");
     let stats = Stats::default();
     let specs = core_specs(quick);
-    let sat_cache = std::sync::Mutex::new(None);
+    let sat_cache = std::sync::Mutex::new(std::collections::BTreeMap::new());
     // work items: (spec, request sweep) and (spec, proof sweep)
     let items: Vec<(usize, bool)> = (0..specs.len()).flat_map(|i| [(i, false), (i, true)]).collect();
     let idx = AtomicUsize::new(0);
@@ -472,7 +481,7 @@ pub fn run(tier: &str) -> i32 {
 
 pub fn replay(case: &Value, rep: &Report) {
     let Ok(spec) = serde_json::from_value::<CoreSpec>(case["core"].clone()) else { return };
-    let sat = std::sync::Mutex::new(None);
+    let sat = std::sync::Mutex::new(std::collections::BTreeMap::new());
     let stats = Stats::default();
     let quick = case["quick"].as_bool().unwrap_or(false);
     let Some(mut subj) = build_subject(&spec, &sat) else { return };
